@@ -86,7 +86,7 @@ fn check_set(v: Pv, hs: Hs, m: usize, w: &[(u64, f64)], rng: &mut Rng, do_single
     obs.relations_checked += 1;
     for p in 0..m {
         if !w.iter().any(|x| x.0 == sig0[p]) {
-            let what = if sig0[p] == PH { "placeholder" } else { "foreign item" };
+            let what = if sig0[p] == PH { "placeholder (not an item of this set)" } else { "foreign item" };
             let key = if sig0[p] == PH && obs.known_class { "C02/placeholder/race-overflow".to_string() } else if sig0[p] == PH { "C02/placeholder".to_string() } else { "C02/foreign-item".to_string() };
             obs.fails.push(Fail { key, what: format!("position {} of the signature of a non-empty set holds the {} ({}), register {:e}, total weight {:e}", p, what, sig0[p], reg0[p], wsum) });
             break;
@@ -323,6 +323,12 @@ pub fn run(rep: &mut Report) {
                 }
                 _ => fresh_ids(&mut rng, n, PH),
             };
+            // the placeholder value (0, "typically 0 for numeric objects") is itself a legitimate item in one set out of six
+            let mut ids = ids;
+            if rng.random_range(0..6) == 0 && !ids.contains(&PH) {
+                let k = rng.random_range(0..n);
+                ids[k] = PH;
+            }
             let ws = gen_weights(&mut rng, n, class);
             let w: Vec<(u64, f64)> = ids.iter().cloned().zip(ws.iter().cloned()).collect();
             let do_singles = n <= 30 || (i % 8 == 0 && n * m <= 40_000);
